@@ -14,3 +14,14 @@ check('C06', 'exploration', 'property-based testing: generated object graphs (ho
       'every due snapshot must exist, convert and serialise, keep sentinels intact, list every local, be closed, not '
       'share tables and not consume iterators.',
       'Frames are suspended-generator frames driven through TriggerHandler.trace_call directly; hostile dunders are stateless.')
+check('C02', 'exploration', 'property-based testing: generated programs + object graphs, same-run frame reading as reference (differential)',
+      'At every tracepoint event the interposed tracer reads the whole f_back chain itself and the snapshot pushed by the '
+      'real agent is compared with it: frames (file, function, line, class of self, app flag, short path), frame-0 variable '
+      'names = locals, frame_type policy, every variable\'s type / text / children (name-keyed), watches vs the oracle\'s own '
+      'eval, tracepoint identity and attributes.',
+      'Completeness of children required for objects within max depth - 2 of the frame locals; truthfulness for all.')
+check('C05', 'exploration', 'property-based testing: generated large object graphs x generated limits, invariant + shortest-path-depth oracle',
+      'Graphs built to exceed each of the four limits; bounds on count, string length/truncated flag, collection size and '
+      'depth are asserted over the whole table (frame and watch values), and breadth-first order is decided from the '
+      'oracle\'s own shortest-path depths over the same live graph.',
+      'Limits injected through the LocationAction config; set elements count-checked only.')
